@@ -116,6 +116,7 @@ func cmdPoll(args []string) {
 				}
 			}
 		}
+		v.Close()
 		if err := enc.Encode(map[string]any{"family": "poll", "seed": sd, "cases": cases, "stats": stats}); err != nil {
 			panic(err)
 		}
